@@ -60,7 +60,7 @@ def _case(job):
         else:
             o = [0]
     return dict(ev="incr", P=glue.parse_pattern(pat), old=glue.cp(old), f=f, date=newdate.toordinal(), today=drive.TODAY.toordinal(),
-                out=o, dbg="%s %s %s %s" % (args[0], pat, old, " ".join(args[3:])), exc=r.exc or "", exit=r.exit, pat=pat)
+                out=o, mode=mode, dbg="%s %s %s %s" % (args[0], pat, old, " ".join(args[3:])), exc=r.exc or "", exit=r.exit, pat=pat)
 
 
 def gen_jobs(ctx, rng, patterns, n):
@@ -148,4 +148,4 @@ def run(ctx):
                 "for 6 core patterns, each run through `bumpver test`; non-trivial = distinct cases in which a new version was produced" % len(pats))
     for e in events[:3]:
         ctx.sample(dict(cmd=e["dbg"], out=glue.uncp(e["out"]) if e["out"][0] else "refused"))
-    ctx.assumptions += ["version texts up to ~40 code points; dates 2001..2099 plus boundary dates", "refusals by the code where the spec would bump are divergences, not violations (C05 speaks about bumped versions)"]
+    ctx.assumptions += ["version texts up to ~40 code points; dates 2001..2099 plus boundary dates", "a refusal by the code where the spec would bump is a violation unless it is explained: the CLI gate refuses results that are not greater or not accepted by the pattern; the library refuses only where the spec does"]
